@@ -68,6 +68,18 @@ def check(spec, rng):
         if e > 1e-3:
             viol.append({'id': 'far-field-is-not-the-radiation-integral-of-the-currents:' + nm, 'observed': float(e)})
             break
+    # a second request on the same model through the SAME (mutated) angle objects is again the radiation integral
+    za, aa = Angle(*zen), Angle(*azi)
+    m.compute_far_field(za, aa, pwr=Pff, dist=r)
+    zen2, azi2 = (zen[0] + 7.0, zen[1], zen[2]), (azi[0] + 90.0, azi[1], azi[2])
+    za.initial, aa.initial = zen2[0], azi2[0]
+    m.compute_far_field(za, aa, pwr=Pff, dist=r)
+    gain2 = np.array(m.far_field.gain)
+    ref2 = radiation_integral(m, zen2, azi2)
+    peak2 = np.max(gain2[..., 2])
+    e = np.max(np.abs(np.sqrt(10 ** (gain2[..., 2] / 10)) - np.sqrt(10 ** (ref2[..., 2] / 10)))) / np.sqrt(10 ** (peak2 / 10))
+    if e > 1e-3:
+        viol.append({'id': 'second-request-on-the-same-model-is-not-the-radiation-integral', 'observed': float(e)})
     # dBi <-> V/m per polarisation, power sum
     for col_db, col_e, nm in ((2, 2, 'vertical'), (3, 4, 'horizontal')):
         for rdb, rvm in zip(db, vm):
